@@ -4,11 +4,12 @@ from vlib import *
 
 GEN_KINDS = {
     "magic": "MagicData.v",
+    "polyglot": "PolyglotData.v",
 }
 
 
 def gen(kinds):
-    exe = harness("dumper")
+    exe = harness("dumper", exclude=("polyglot.o",))
     changed = []
     for k in kinds:
         rc, o, e = sh([exe, k], timeout=120)
